@@ -49,6 +49,8 @@ class InterpBase(CtxMixin):
         self.fn_stack = []
         self.prove_hook = None
         self.read_log = None
+        self.list_births = {}
+        self.summary_floor = None
         self.global_orig = {}
         self.read_base = 0
         self.reads_from = 0
@@ -341,6 +343,8 @@ class InterpBase(CtxMixin):
 
     def stmt_For(self, node, env):
         it = self.eval(node.iter, env)
+        if self.fn_stack and self.summarize_append_loop(node, it, env):
+            return
         try:
             items = self.iterate(it)
         except SymbolicIteration as si:
@@ -428,7 +432,14 @@ class InterpBase(CtxMixin):
         return tuple(out)
 
     def expr_List(self, node, env):
-        return list(self.expr_Tuple(node, env))
+        return self.new_list(list(self.expr_Tuple(node, env)))
+
+    def new_list(self, lst):
+        """remember when a concrete list was created (python lists carry no attributes)"""
+        from .core import next_birth
+        if isinstance(lst, list):
+            self.list_births[id(lst)] = (next_birth(), lst)
+        return lst
 
     def expr_Set(self, node, env):
         return self.make_set([self.eval(e, env) for e in node.elts])
@@ -650,7 +661,13 @@ class InterpBase(CtxMixin):
     def check_write(self, obj):
         if self.pure_depth > 0:
             b = getattr(obj, 'birth', None)
-            if b is None or b <= self.pure_birth[0]:
+            if b is None and isinstance(obj, list):
+                rec = self.list_births.get(id(obj))
+                b = rec[0] if rec is not None and rec[1] is obj else None
+            floor = self.pure_birth[0]
+            if self.summary_floor is not None:
+                floor = min(floor, self.summary_floor)   # objects created by the loop being summarised are its own
+            if b is None or b <= floor:
                 raise MergeFail('heap write in pure evaluation')
 
     def merge(self, c, a, b):
